@@ -29,6 +29,21 @@ checks = {
  "C19": dict(engine="wgen(edit)", technique="runtime monitoring: meaning-neutral source edits (blankspace/line-break variants, comments, parentheses, trailing commas, renaming) applied to generated and corpus sources; all artefacts of the edited source are compared with the original's",
    text="Held on the (source, edit sequence) pairs observed: acceptance unchanged, canonical IR dump identical (names blanked), SPIR-V bytes and HLSL/MSL/GLSL text identical.",
    note="An independent mini-lexer finds token boundaries in corpus files; edits never touch the inside of a token.", ref="DESIGN.md §4 C19"),
+ "C03": dict(engine="wgen+wref+hlslx", technique="runtime monitoring: differential execution of naga's HLSL text in an independent HLSL interpreter (byte-address buffers, cbuffer packing, UB monitors, identifier/typing monitors) against the WGSL reference evaluator",
+   text="Held on the executions observed within the gated program profile; the emitted text is parsed, statically checked and executed under several shader models / option sets.",
+   note="Trusted base: wref, hlslx (HLSL semantics as read from the language reference), wlayout. Constructs that hit listed HLSL findings (matCx2 accessors, arrays of arrays, private arrays, bit helpers, float sign, inverse hyperbolics, whole-struct loads) are gated off and replayed from witnesses.", ref="DESIGN.md §4 C03"),
+ "C04": dict(engine="wgen+wref+mslx", technique="runtime monitoring: differential execution of naga's MSL text in an independent MSL/C++14 interpreter (Metal ABI layout, references, UB monitors incl. signed overflow) against the WGSL reference evaluator",
+   text="Held on the executions observed within the gated program profile under several language versions and bounds-check policies.",
+   note="Trusted base: wref, mslx, wlayout. Listed MSL findings (missing parentheses around select / inline operands, integer dot overflow, round, firstLeadingBit, pointers to checked elements) are gated off and replayed from witnesses.", ref="DESIGN.md §4 C04"),
+ "C05": dict(engine="wgen+wref+glslx", technique="runtime monitoring: differential execution of naga's GLSL text in an independent GLSL interpreter (std430/std140 layout, UB monitors) against the WGSL reference evaluator; executions on which GLSL itself is undefined are classified out of scope, as the property states",
+   text="Held on the GLSL-defined executions observed within the gated program profile for core 4.30/4.50 and ES 3.10 outputs.",
+   note="Trusted base: wref, glslx, wlayout. Listed GLSL findings (vector select, block layout without offsets, atomicSub of a negative literal, constant folding of non-arithmetic operators, continue in nested switch) are gated off and replayed from witnesses.", ref="DESIGN.md §4 C05"),
+ "C10": dict(engine="hostile inputs + vworker", technique="runtime monitoring: process-level monitors (recovered panics, fatal runtime errors attributed through a BEGIN log, CPU-time and peak-RSS budgets, RLIMIT_AS) around every public entry point fed with hostile inputs in isolated worker processes",
+   text="Held on the inputs observed: random bytes and token soup, token mutations and splices of valid programs, deep / wide / numeric / semantic stress templates up to 64 KiB; known crash and blow-up sites are listed findings keyed by input template and site.",
+   note="Budgets are CPU time (10 s) and resident memory (768 MiB) per input, confirmed by a solo re-run; wall clock only protects the run.", ref="DESIGN.md §4 C10"),
+ "C12": dict(engine="wgen+irstrict+vworker+race detector", technique="runtime monitoring: byte equality across fresh processes, backend orders on a shared module and a reused spirv.Backend; canonical module dump before/after every backend; Go race detector over concurrent compilations with output comparison",
+   text="Held on the histories and schedules observed: all 24 orders of four backends for part of the programs, random orders otherwise, 2/4/16 goroutines behind a start barrier on separate and shared modules.",
+   note="dxil.Compile and the PipelineConstants paths mutate their input module (finding F57, whose repair would break a golden that encodes the history dependence); they are exercised as a witness only. Schedules are sampled, not enumerated.", ref="DESIGN.md §4 C12"),
 }
 pending = {}
 for p in ALL:
